@@ -190,6 +190,54 @@ def aliasing_probe(ctx, root):
     b.cleanup_module()
 
 
+def default_alias_probe(ctx, root):
+    """falling back to the parameter's default: every task gets its OWN copy of a mutable declared default — what one task (its run, or user
+    code through `task.params`) does to the value never reaches a task of another namespace, chain or config, nor the declaration itself"""
+    from taskchain import Config
+    decl = {'lst': [1, {'k': [2]}], 'dct': {'a': [1]}}
+    spec = {'classes': {'K0': {'name': 'a', 'group': '', 'params': [{'name': 'lst', 'default': copy.deepcopy(decl['lst'])},
+                                                                      {'name': 'dct', 'default': copy.deepcopy(decl['dct'])}, {'name': 'x', 'default': 0}],
+                               'inputs': [], 'kind': 'json', 'run_args': []}},
+            'files': {'p.json': {'tasks': ['K0'], 'x': 1}, 'q.json': {'tasks': ['K0'], 'x': 2},
+                      'm.json': {'uses': ['{D}/p.json as n1', '{D}/q.json as n2']}}, 'main': 'm.json'}
+    b = pl.materialize(spec, root / 'dalias', modname=builder.gen.fresh_modname())
+    b.module()
+    gv = {'D': str(b.path('p.json').parent)}
+
+    def mutate(task):
+        task.params.lst.append('MUT'); task.params.lst[1]['k'].append('MUT'); task.params.dct['MUT'] = 1
+
+    def seen(task):
+        return {'lst': _plain(task.params.lst), 'dct': _plain(task.params.dct)}
+    for variant in range(ctx.n(4, 24)):
+        case = {'probe': 'default-aliasing', 'variant': variant}
+        ctx.case(case); ctx.count('aliasing-probe:declared-default')
+        if variant % 2 == 0:
+            # two namespaces of one chain
+            chain = Config(root / 'dd', str(b.path('m.json')), global_vars=gv).chain(parameter_mode=bool(variant % 4))
+            first, second = chain['n1::a'], chain['n2::a']
+            if seen(second) != decl or seen(first) != decl:
+                ctx.fail('a task without a configured value does not see the declared default', case, {'first': seen(first), 'second': seen(second)})
+                continue
+            mutate(first)
+            if seen(second) != decl:
+                ctx.fail('a mutable declared default is shared by tasks of two configs: a change made through one reached the other', case,
+                         {'declared': decl, 'other_task_sees': seen(second)})
+        else:
+            # two chains built one after the other in the same process
+            first = Config(root / 'dd', str(b.path('p.json'))).chain(parameter_mode=bool(variant % 4 == 1))['a']
+            k1 = first.name_for_persistence
+            mutate(first)
+            second = Config(root / 'dd', str(b.path('q.json' if variant % 3 else 'p.json'))).chain(parameter_mode=bool(variant % 4 == 1))['a']
+            if seen(second) != decl:
+                ctx.fail('a mutable declared default is shared by tasks of two chains: a later task sees what an earlier one did to its value', case,
+                         {'declared': decl, 'later_task_sees': seen(second)})
+            elif variant % 3 == 0 and second.name_for_persistence != k1:
+                ctx.fail('the same config built again got another storage key after a task of the first chain changed its parameter value', case,
+                         {'first': k1, 'second': second.name_for_persistence})
+    b.cleanup_module()
+
+
 def _plain(x):
     """strings (incl. substituted ones) by their text"""
     if isinstance(x, dict):
@@ -214,6 +262,7 @@ def run(ctx):
     for i, (spec, mo) in enumerate(zip(specs, outs)):
         check_params(ctx, spec, root, f'c{i}', mo)
     aliasing_probe(ctx, root)
+    default_alias_probe(ctx, root)
 
 
 def search(ctx, divergences):
